@@ -360,6 +360,17 @@ pub fn judge(sc: &Scenario) -> Judgement {
     j.comparisons += got.len() as u64;
     let got_ids: Vec<i64> = got.iter().map(|g| g.0).collect();
     let want_ids: Vec<i64> = want_resp.iter().map(|w| w.0).collect();
+    if got_ids.len() < want_ids.len() && want_ids.starts_with(&got_ids) && rec.end.is_some() {
+        // nothing reordered, duplicated or dropped in the middle: the process ended before the
+        // tail was written, which is C18's `complete-before-exit`
+        j.notes.push(format!(
+            "other-property=C18 the process ended (status {:?}) with {} of {} responses written",
+            rec.status(),
+            got_ids.len(),
+            want_ids.len()
+        ));
+        return j;
+    }
     if got_ids != want_ids {
         let k = got_ids.iter().zip(want_ids.iter()).position(|(a, b)| a != b).unwrap_or(got_ids.len().min(want_ids.len()));
         j.violate(
